@@ -111,7 +111,12 @@ class InMemoryObjectStore(BaseObjectStore):
             raise ValueError(
                 f'Name "{name}" already in {self._cim_object_type} '
                 'object store')
-        # Add with deepcopy to completely isolate the copy in the repository
+        # Add with deepcopy to completely isolate the copy in the repository.
+        # The name is copied as well if it is a mutable object (instance
+        # path), so that the key in the repository is not shared with the
+        # caller.
+        if self._copy_names:
+            name = name.copy()
         self._data[name] = deepcopy(cim_object)
 
     def update(self, name, cim_object):
